@@ -5,9 +5,10 @@
 (* A configuration fixes the command line and the world it runs in:        *)
 (*   mode   "run" (no -o: the Lua goes to a child process `lua`),          *)
 (*          "stdout" (-o -), "file" (-o FILE)                              *)
-(*   path   state of FILE before the command: "absent", "existing" (old    *)
-(*          content), "missing_parent", "is_directory"; "none" when no     *)
-(*          FILE is named                                                  *)
+(*   path   state of the output path before the command.  FILE: "absent",  *)
+(*          "existing" (old content), "missing_parent", "is_directory",    *)
+(*          "unwritable_device" (can be opened, every write fails);        *)
+(*          stdout: "none" (writable) or "unwritable"; run mode: "none"    *)
 (*   req    --require M given,  nostd  --no-std given                      *)
 (*   prog   the program: accepted | rejected with n errors | accepted but  *)
 (*          failing at run time (assert, unreachable, other Lua error),    *)
@@ -28,7 +29,7 @@ CONSTANTS MaxErrs,   \* bound on the number of errors of a program whose error l
 
 VARIABLES cfg,       \* the configuration (never changes)
           pc,        \* "start" | "compile" | "run" | "wstdout" | "wfile" | "print" | "exit" | "done"
-          fs,        \* content class of FILE: "none" | "absent" | "old" | "noparent" | "dir" | "complete" | "partial"
+          fs,        \* content class of FILE: "none" | "absent" | "old" | "noparent" | "dir" | "device" | "complete" | "partial"
           chunk,     \* what the child `lua` was given: "none" (no child) | "empty" | "complete" | "partial"
           soprog,    \* program bytes on stdout: "none" | "complete" | "partial"
           sorun,     \* output of the run on stdout: "none" | "all" | "prefix"
@@ -43,7 +44,8 @@ dvars == <<cfg, pc, fs, chunk, soprog, sorun, errs, printed, exit, hist>>
 (* The configuration space, index-addressed (mixed radix, least significant first) *)
 Sinks == <<[mode |-> "run", path |-> "none"], [mode |-> "stdout", path |-> "none"],
            [mode |-> "file", path |-> "absent"], [mode |-> "file", path |-> "existing"],
-           [mode |-> "file", path |-> "missing_parent"], [mode |-> "file", path |-> "is_directory"]>>
+           [mode |-> "file", path |-> "missing_parent"], [mode |-> "file", path |-> "is_directory"],
+           [mode |-> "file", path |-> "unwritable_device"], [mode |-> "stdout", path |-> "unwritable"]>>
 
 Progs == <<[k |-> "acc", n |-> 0, why |-> "none"],
            [k |-> "rej", n |-> 1, why |-> "none"], [k |-> "rej", n |-> 2, why |-> "none"],
@@ -53,7 +55,7 @@ Progs == <<[k |-> "acc", n |-> 0, why |-> "none"],
 
 NSinks == Len(Sinks)
 NProgs == Len(Progs)
-NBase  == NSinks * 2 * 2 * NProgs * 2        \* 336
+NBase  == NSinks * 2 * 2 * NProgs * 2        \* 448
 
 MkCfg(s, req, nostd, p, std) ==
     [mode |-> Sinks[s].mode, path |-> Sinks[s].path, req |-> req, nostd |-> nostd,
@@ -80,7 +82,9 @@ UniverseWellFormed ==
     /\ Universe = AllConfigs
     /\ Cardinality(Universe) = NBase
     /\ \A b \in 0..(NBase - 1) : IndexOfCfg(CaseBase(b)) = b
-    /\ \A c \in AllConfigs : (c.mode = "file") = (c.path # "none")
+    /\ \A c \in AllConfigs : /\ c.mode = "file" => c.path \notin {"none", "unwritable"}
+                             /\ c.mode = "stdout" => c.path \in {"none", "unwritable"}
+                             /\ c.mode = "run" => c.path = "none"
 
 ---------------------------------------------------------------------------
 (* What the property's words mean for a configuration (stated independently of the actions below) *)
@@ -89,14 +93,15 @@ UniverseWellFormed ==
 Eff(c) == IF c.nostd /\ c.std THEN "rej" ELSE c.pk
 
 CompileSucceeds(c) == Eff(c) # "rej"
-Writable(c) == c.path \in {"absent", "existing"}
+Writable(c) == c.path \in {"none", "absent", "existing"}     \* can the requested output be written?
 
 \* "compilation (and, in run mode, execution) succeeded", plus: the requested output could be produced
 Success(c) == /\ CompileSucceeds(c)
               /\ c.mode = "run" => Eff(c) = "acc"
-              /\ c.mode = "file" => Writable(c)
+              /\ c.mode \in {"file", "stdout"} => Writable(c)
 
-InitFs(c) == CASE c.path = "none" -> "none"
+InitFs(c) == CASE c.path \in {"none", "unwritable"} -> "none"
+               [] c.path = "unwritable_device" -> "device"
                [] c.path = "absent" -> "absent"
                [] c.path = "existing" -> "old"
                [] c.path = "missing_parent" -> "noparent"
@@ -168,11 +173,17 @@ RunFail == /\ pc = "run" /\ Eff(cfg) = "rt"
            /\ Step("RunFail")
            /\ UNCHANGED <<fs, chunk, soprog, printed, exit>>
 
-WriteStdout == /\ pc = "wstdout"
+WriteStdout == /\ pc = "wstdout" /\ Writable(cfg)
                /\ soprog' = "complete"
                /\ pc' = "exit"
                /\ Step("WriteStdout")
                /\ UNCHANGED <<fs, chunk, sorun, errs, printed, exit>>
+
+WriteStdoutFail == /\ pc = "wstdout" /\ ~Writable(cfg)
+                   /\ errs' = Append(errs, "io")
+                   /\ pc' = "print"
+                   /\ Step("WriteStdoutFail")
+                   /\ UNCHANGED <<fs, chunk, soprog, sorun, printed, exit>>
 
 WriteFileOk == /\ pc = "wfile" /\ Writable(cfg)
                /\ fs' = "complete"
@@ -213,7 +224,7 @@ BadExitZero == /\ Faulty /\ pc = "exit" /\ errs # <<>>
                /\ UNCHANGED <<fs, chunk, soprog, sorun, errs, printed>>
 
 Next == \/ ParseArgs \/ CompileOk \/ CompileErr \/ RunOk \/ RunFail \/ WriteStdout
-        \/ WriteFileOk \/ WriteFileFail \/ PrintErrors \/ Exit
+        \/ WriteStdoutFail \/ WriteFileOk \/ WriteFileFail \/ PrintErrors \/ Exit
         \/ BadPartialWrite \/ BadSilentExit \/ BadExitZero
 
 Spec == Init /\ [][Next]_dvars
@@ -224,7 +235,7 @@ Done == pc = "done"
 
 TypeOK == /\ cfg \in AllConfigs
           /\ pc \in {"start", "compile", "run", "wstdout", "wfile", "print", "exit", "done"}
-          /\ fs \in {"none", "absent", "old", "noparent", "dir", "complete", "partial"}
+          /\ fs \in {"none", "absent", "old", "noparent", "dir", "device", "complete", "partial"}
           /\ chunk \in {"none", "empty", "complete", "partial"}
           /\ soprog \in {"none", "complete", "partial"}
           /\ sorun \in {"none", "all", "prefix"}
